@@ -96,6 +96,10 @@ def ref_setting(op):
         # expires=0 / (): a timestamp, or "unset" (the expires_days rule treats
         # a false value as unset) -- the documentation does not say
         attrs["expires"] = Unspecified
+    elif isinstance(expires, str):
+        # a string is not a documented timestamp type: the call may raise; if it is accepted the attribute is
+        # that very string (and nothing else may appear)
+        attrs["expires"] = expires
     elif expires is not None:
         attrs["expires"] = wo.http_date(ts_of(expires))
     elif days is not None:
@@ -290,6 +294,7 @@ S_SLOTS = [
     ("set_cookie.domain", "str", lambda x: ("set", ("a", "v"), {"domain": x})),
     ("set_cookie.path", "str", lambda x: ("set", ("a", "v"), {"path": x})),
     ("set_cookie.samesite", "str", lambda x: ("set", ("a", "v"), {"samesite": x})),
+    ("set_cookie.expires[str]", "str", lambda x: ("set", ("a", "v"), {"expires": x})),
     ("set_cookie.max_age", "str", lambda x: ("set", ("a", "v"), {"max_age": x})),
     ("set_cookie.kwargs.Domain", "str", lambda x: ("set", ("a", "v"), {"Domain": x})),
     ("set_cookie.kwargs.Path", "str", lambda x: ("set", ("a", "v"), {"Path": x})),
@@ -311,7 +316,7 @@ def s_family(slot_id):
     fam = slot_id.replace("[bytes]", "")
     if ".kwargs." in fam:
         return "set_cookie.kwargs"
-    if fam.endswith((".domain", ".path", ".samesite", ".max_age")):
+    if fam.endswith((".domain", ".path", ".samesite", ".max_age", ".expires[str]")):
         return "cookie.attribute-argument"
     if fam.endswith(".name"):
         return "cookie.name"
@@ -326,9 +331,11 @@ def s_strings(typ, maxlen):
             yield empty.join(t)
 
 
-def s_wrap(typ, form, s):
+def s_wrap(typ, form, s, sid=""):
     if form == "alone":
         return s
+    if sid.endswith("expires[str]"):
+        return "Wed, 01 Jan 2030 00:00:00 GMT" + s       # a parsable date followed by the enumerated text
     return (b"ok" + s + b"ok") if typ == "bytes" else ("ok" + s + "ok")
 
 
@@ -470,7 +477,7 @@ class C25(Check):
                 for j, s in enumerate(s_strings(typ, self.s_bound(tier, form, sid))):
                     if j % shards != shard:
                         continue
-                    x = s_wrap(typ, form, s)
+                    x = s_wrap(typ, form, s, sid)
                     self.one(app, box, [mk(x)], st, s_family(sid),
                              {"family": "S", "slot": sid, "form": form, "s": s},
                              None if plain(x) else (sid, x))
@@ -523,7 +530,7 @@ class C25(Check):
         with wo.frozen_web_clock():
             if case["family"] == "S":
                 _, typ, mk = S_BY_ID[case["slot"]]
-                prog = [mk(s_wrap(typ, case["form"], case["s"]))]
+                prog = [mk(s_wrap(typ, case["form"], case["s"], case["slot"]))]
             elif case["family"] == "A":
                 want = case["op"]
                 prog = [[op] for op in a_ops(case["ei"], case["di"])
